@@ -45,10 +45,37 @@ func itemObs(it *utils.PriorityQueueItem) [2]int64 {
 	return [2]int64{prioKey(it.Priority()), int64(it.Value().(int))}
 }
 
-func runPQScript(ops []pqOp) []pqObs {
+// runPQScript runs a script; with [ctor] the pushes that directly follow a "new" on the same handle are handed to the
+// constructor as initial items instead (NewMin/MaxPriorityQueue(items...)): the same queue by specification.
+func runPQScript(ops []pqOp, ctor bool) []pqObs {
 	qs := map[int]utils.PriorityQueue{}
 	obs := make([]pqObs, 0, len(ops))
-	for _, o := range ops {
+	skip := 0
+	for oi, o := range ops {
+		if skip > 0 {
+			skip--
+			obs = append(obs, pqObs{Kind: "none"})
+			continue
+		}
+		if ctor && o.Op == "new" {
+			var init []*utils.PriorityQueueItem
+			for _, nx := range ops[oi+1:] {
+				if nx.Op != "push" || nx.H != o.H || !(nx.Prio >= 0) {
+					break
+				}
+				init = append(init, utils.NewPriorityQueueItem(nx.Prio, nx.Val))
+			}
+			if len(init) >= 2 {
+				if o.Max {
+					qs[o.H] = utils.NewMaxPriorityQueue(init...)
+				} else {
+					qs[o.H] = utils.NewMinPriorityQueue(init...)
+				}
+				skip = len(init)
+				obs = append(obs, pqObs{Kind: "none"})
+				continue
+			}
+		}
 		var ob pqObs
 		panicked, _ := recoverPanic(func() {
 			switch o.Op {
@@ -165,7 +192,10 @@ func pqCorpus() [][]pqOp {
 	}
 	w2 := []pqOp{{Op: "new", H: 0}, {Op: "pop", H: 0}, {Op: "peek", H: 0}, {Op: "push", H: 0, Prio: -1, Val: 1}, {Op: "len", H: 0},
 		{Op: "reverse", H: 0, H2: 1}, {Op: "push", H: 1, Prio: 2, Val: 2}, {Op: "slice", H: 0}, {Op: "slice", H: 1}}
-	return [][]pqOp{w, w2}
+	// (index 1 and 3 of the corpus run with the constructor variant) a min queue whose initial items are not in heap order
+	w3 := []pqOp{{Op: "new", H: 0}, {Op: "push", H: 0, Prio: 3, Val: 1}, {Op: "push", H: 0, Prio: 1, Val: 2}, {Op: "push", H: 0, Prio: 2, Val: 3}, {Op: "push", H: 0, Prio: 1, Val: 4},
+		{Op: "peek", H: 0}, {Op: "slice", H: 0}, {Op: "reverse", H: 0, H2: 1}, {Op: "pop", H: 0}, {Op: "pop", H: 0}, {Op: "pop", H: 0}, {Op: "pop", H: 0}, {Op: "pop", H: 1}, {Op: "pop", H: 1}}
+	return [][]pqOp{w, w3, w2, w3}
 }
 
 func coqPQOp(o pqOp) string {
@@ -210,7 +240,7 @@ func coqPQObs(o pqObs) string {
 
 func runC19(a *args) error {
 	r := newRng(a.seed)
-	st := newStats("scripts of new/push/pop/peek/reverse/slice/len over up to 5 queue handles, priorities from a pool with ties plus random finite floats and negatives; every script ends by dumping all handles and draining one; non-trivial = contains a reverse and a later pop on a queue holding >= 2 items; distinct by hash of the op list")
+	st := newStats("scripts of new/push/pop/peek/reverse/slice/len over up to 5 queue handles, priorities from a pool with ties plus random finite floats and negatives; every script ends by dumping all handles and draining one; every other script builds its queues with the leading pushes passed to the constructor as initial items; non-trivial = contains a reverse and a later pop on a queue holding >= 2 items; distinct by hash of the op list")
 	var cases []pqCase
 	var scripts [][]pqOp
 	if a.replay != "" {
@@ -230,8 +260,13 @@ func runC19(a *args) error {
 		}
 	}
 	seen := map[string]bool{}
-	for _, ops := range scripts {
-		obs := runPQScript(ops)
+	for si, ops := range scripts {
+		// every other script hands the pushes that follow a "new" to the constructor as initial items
+		ctor := si%2 == 1
+		obs := runPQScript(ops, ctor)
+		if ctor {
+			st.count("initial-items-via-constructor")
+		}
 		cases = append(cases, pqCase{ops, obs})
 		st.Evaluations++
 		rev, nontriv := false, false
